@@ -717,6 +717,12 @@ func buildRegistration(r *RNG, s *RegSpec) *RegBuilt {
 			extra := pick(r, [][]byte{derExplicit(305, derNull()), derExplicit(404, derInt(7))})
 			kd = kdSpec{attVersion: 100, secLevel: 1, challenge: chal, teeAll: true, hasOrigin: true, teeOrigin: 0, teePurpose: []int{2}, keySize: 256, nullStyle: "go", teeExtra: [][]byte{extra}}.DER()
 		}
+		if s.d("ak.schemaMistyped.originAfter") {
+			// a member the struct does have, with content of another type than the struct expects (ecCurve [10] / rsaPublicExponent [200] /
+			// activeDateTime [400] holding an OCTET STRING, a NULL or a SEQUENCE), precedes origin = IMPORTED: same stall as an unknown tag
+			extra := pick(r, [][]byte{derExplicit(10, derOctets([]byte{1})), derExplicit(200, derNull()), derExplicit(400, derOctets(nil)), derExplicit(200, derOctets([]byte{1, 0, 1}))})
+			kd = kdSpec{attVersion: 100, secLevel: 1, challenge: chal, hasOrigin: true, teeOrigin: 2, teePurpose: []int{2}, keySize: 256, nullStyle: "go", teeExtra: [][]byte{extra}}.DER()
+		}
 		if s.d("ak.schemaStyle.honest") {
 			// schema-conformant encoding of an honest description WITHOUT NULL-typed elements: must be accepted
 			kd = kdSpec{attVersion: 3, secLevel: 1, challenge: chal, hasOrigin: true, teeOrigin: 0, teePurpose: []int{2, 3}, keySize: 256, osVersion: 110000, nullStyle: "schema"}.DER()
